@@ -278,6 +278,97 @@ func cycles(quick bool, yield func(input)) {
 	}
 }
 
+// ---- family (d): name collisions. Every loop that picks a fresh name (mangled
+// helper names for same-named types of different files, import aliases for
+// same-named files) must terminate: k = 1..5 included files define one name, the
+// root optionally defines it too and uses every one of them in a field, a list, a
+// set, a map value or a map key; and k = 2..5 files share one base name in
+// different directories.
+func collisions(yield func(input)) {
+	kinds := map[string]string{
+		"struct":  "struct Item { 1: optional i32 a }\n",
+		"enum":    "enum Item { A, B }\n",
+		"typedef": "typedef i32 Item\n",
+		"mixed":   "",
+	}
+	mixed := []string{"struct", "enum", "typedef"}
+	uses := []string{"field", "list", "set", "map-value", "map-key"}
+	for _, kind := range []string{"struct", "enum", "typedef", "mixed"} {
+		for k := 1; k <= 5; k++ {
+			for _, rootHas := range []bool{false, true} {
+				for _, use := range uses {
+					files := map[string]string{}
+					var root strings.Builder
+					for i := 1; i <= k; i++ {
+						fmt.Fprintf(&root, "include \"./f%d.thrift\"\n", i)
+						kd := kind
+						if kind == "mixed" {
+							kd = mixed[i%3]
+						}
+						files[fmt.Sprintf("f%d.thrift", i)] = kinds[kd]
+					}
+					if rootHas {
+						root.WriteString(kinds["struct"])
+					}
+					root.WriteString("struct Holder {\n")
+					id := 1
+					emit := func(ref string) {
+						t := ref
+						switch use {
+						case "list":
+							t = "list<" + ref + ">"
+						case "set":
+							t = "set<" + ref + ">"
+						case "map-value":
+							t = "map<string, " + ref + ">"
+						case "map-key":
+							t = "map<" + ref + ", string>"
+						}
+						fmt.Fprintf(&root, "  %d: optional %s v%d\n", id, t, id)
+						id++
+					}
+					for i := 1; i <= k; i++ {
+						emit(fmt.Sprintf("f%d.Item", i))
+					}
+					if rootHas {
+						emit("Item")
+					}
+					root.WriteString("}\n")
+					files["root.thrift"] = root.String()
+					yield(input{Class: fmt.Sprintf("collide:type:%s:k%d:root%v:%s", kind, k, rootHas, use), Root: "root.thrift", Files: files})
+				}
+			}
+		}
+	}
+	for k := 2; k <= 5; k++ {
+		for _, sameType := range []bool{false, true} {
+			files := map[string]string{}
+			var root strings.Builder
+			for i := 1; i <= k; i++ {
+				fmt.Fprintf(&root, "include \"./d%d/x.thrift\"\n", i)
+			}
+			// an include name must be unique in the including file, so same-named files are reached through one hop each
+			root.Reset()
+			for i := 1; i <= k; i++ {
+				fmt.Fprintf(&root, "include \"./h%d.thrift\"\n", i)
+				tn := fmt.Sprintf("T%d", i)
+				if sameType {
+					tn = "T"
+				}
+				files[fmt.Sprintf("d%d/x.thrift", i)] = fmt.Sprintf("struct %s { 1: optional i32 a }\n", tn)
+				files[fmt.Sprintf("h%d.thrift", i)] = fmt.Sprintf("include \"./d%d/x.thrift\"\nstruct H%d { 1: optional x.%s a; 2: optional list<x.%s> b }\n", i, i, tn, tn)
+			}
+			root.WriteString("struct Holder {\n")
+			for i := 1; i <= k; i++ {
+				fmt.Fprintf(&root, "  %d: optional h%d.H%d v%d\n", i, i, i, i)
+			}
+			root.WriteString("}\n")
+			files["root.thrift"] = root.String()
+			yield(input{Class: fmt.Sprintf("collide:file:k%d:sametype%v", k, sameType), Root: "root.thrift", Files: files})
+		}
+	}
+}
+
 // ---- family (b): token strings
 
 var fullTokens = []string{
@@ -385,6 +476,7 @@ func run(w *ev.W) {
 		w.Done()
 	}
 	cycles(w.Quick(), func(in input) { do(func() input { return in }, "cycles") })
+	collisions(func(in input) { do(func() input { return in }, "name-collisions") })
 
 	tokFam := func(alpha []string, n int, name string) {
 		tokenStrings(alpha, n, func(toks []string) {
